@@ -519,9 +519,9 @@ func (w *world) nbrs(p int) []int {
 }
 
 func body(s *simrt.Sim, tier string) {
-	// One run in 32 watches the connection tables of real schedulers in a
+	// One run in 16 watches the connection tables of real schedulers in a
 	// simulated cluster (invivo_test.go); workload variants are out of band.
-	if s.Tape.Variant%32 == 5 || os.Getenv("KSIM_C16_MODE") == "invivo" {
+	if s.Tape.Variant%16 == 5 || os.Getenv("KSIM_C16_MODE") == "invivo" {
 		invivo(s, tier)
 		return
 	}
